@@ -8,7 +8,7 @@ use crate::e2::{Res, StreamCase, StreamObs};
 use crate::e3::{Ev3, Mode, SchedCase, SchedObs, WakerPolicy};
 use crate::ent::BoxError;
 use crate::p_sched::{dfs, programs, sched_case_with_obs};
-use crate::p_serve::{c01_block, c01_n_blocks, c06_block, c06_n_blocks, c07_cases_for_tuple, c07_tuples, exec as exec_serve, replay_serve};
+use crate::p_serve::{c01_block, c01_n_blocks, long_body_block, long_body_n, c06_block, c06_n_blocks, c07_cases_for_tuple, c07_tuples, exec as exec_serve, replay_serve};
 use crate::p_stream::{c08_block, c08_n_blocks, c09_block, c09_n_blocks, c11_run_seq_block, c11_seq_space, replay as replay_stream};
 use crate::util::{hash64, norm_loc, Rng};
 use bytes::Bytes;
@@ -287,7 +287,7 @@ impl Prop for C12 {
         "size_hint() and is_end_stream() sampled before EVERY poll of every body of: the C01 workload (serve: Once / ExactLen bodies, all lengths x chunk plans), the C06 workload (multipart), the C08, C09 and C11 op sequences (streaming raw / gzip, incl. abort), C10-style schedules with the hint sampled inside the scheduling windows, free-running hint-spin trials (one thread calls is_end_stream()/size_hint() in a tight loop while another ends the writer - drop with an unflushed tail, or abort - after a random delay; samples judged against what the body then delivers), and all Body::from conversions + Body::empty (lengths 0, 1, 4096). Judged against the total known at the clean end: lower <= remaining <= upper, exactness for serve and conversion bodies, nothing but end after is_end_stream() = true. Non-trivial = distinct body with >= 2 samples".into()
     }
     fn n_blocks(&self, ctx: &Ctx) -> usize {
-        c01_n_blocks(ctx) + c06_n_blocks() + c08_n_blocks(ctx) + c09_n_blocks(ctx) + c11_seq_space(ctx).blocks.len() + c12_sched_blocks(ctx).len() + c12_spin_blocks(ctx).len() + 1
+        c01_n_blocks(ctx) + c06_n_blocks() + c08_n_blocks(ctx) + c09_n_blocks(ctx) + c11_seq_space(ctx).blocks.len() + c12_sched_blocks(ctx).len() + c12_spin_blocks(ctx).len() + long_body_n(ctx) + 1
     }
     fn run_block(&self, b: usize, sink: &mut Sink) {
         let ctx = sink.ctx.clone();
@@ -346,6 +346,11 @@ impl Prop for C12 {
         k -= sb.len();
         if k < c12_spin_blocks(&ctx).len() {
             c12_spin_block(k, sink);
+            return;
+        }
+        k -= c12_spin_blocks(&ctx).len();
+        if k < long_body_n(&ctx) {
+            long_body_block(k, sink, &c12_serve_judge);
             return;
         }
         c12_conversions(sink);
